@@ -162,16 +162,16 @@ def select_start_nodes(td, env, num_starts):
             + 1
         )
         if env.name == "op":
-            if (td["action_mask"][..., 1:].float().sum(-1) < num_starts).any():
-                # for the orienteering problem, we may have some nodes that are not available
-                # so we need to resample from the distribution of available nodes
-                selected = (
-                    torch.multinomial(
-                        td["action_mask"][..., 1:].float(), num_starts, replacement=True
-                    )
-                    + 1
-                )  # re-add depot index
-                selected = rearrange(selected, "b n -> (n b)")
+            # for the orienteering problem, some nodes may not be reachable within the length budget:
+            # per instance, take its feasible nodes in ascending order (cycling over them if there are
+            # fewer than num_starts), so that start nodes are always feasible for their own instance
+            # and pairwise distinct whenever at least num_starts feasible nodes exist
+            feasible = td["action_mask"][..., 1:]
+            order = torch.argsort((~feasible).int(), dim=-1, stable=True)  # feasible nodes first
+            num_feasible = feasible.sum(-1, keepdim=True).clamp(min=1)
+            pick = torch.arange(num_starts, device=td.device)[None] % num_feasible
+            selected = order.gather(-1, pick) + 1  # re-add depot index
+            selected = rearrange(selected, "b n -> (n b)")
     return selected
 
 
